@@ -140,7 +140,7 @@ func (t *tState) lpmEntries(idx int) []lpmEnt {
 			}
 		} else {
 			d, l := uniquePfx(mo.o.ID)
-			add(uint32(d[0])<<24|uint32(d[1])<<16|uint32(d[2])<<8, int(l), pair{"", pk, it})
+			add(uint32(d[0])<<24|uint32(d[1])<<16|uint32(d[2])<<8|uint32(d[3]), int(l), pair{"", pk, it})
 		}
 	}
 	out := make([]lpmEnt, 0, len(m))
@@ -158,7 +158,7 @@ func (q Query) lpmBits() (uint32, int, int) { // bits (left aligned 32), len, un
 		return uint32(p.Bits) << 16, p.Len, 16
 	}
 	d, l := q.ulpmData()
-	return uint32(d[0])<<24 | uint32(d[1])<<16 | uint32(d[2])<<8, l, 24
+	return uint32(d[0])<<24 | uint32(d[1])<<16 | uint32(d[2])<<8 | uint32(d[3]), l, 8 * ulpmBytes
 }
 
 func mask32(bits uint32, l int) uint32 {
